@@ -140,9 +140,7 @@ func TestC04(t *testing.T) {
 		}
 		rec.Case(key, labels...)
 		rec.ExtraAdd("requests_sent", int64(nreq))
-		if nreq <= 4 {
-			rec.Sample(c)
-		}
+		rec.Sample(stormSample(c))
 		return c
 	}, func(c stormCase) *evid.Fail {
 		res, f := runStorm(&c, rec)
